@@ -86,7 +86,11 @@ def run_case(case):
         fn = crops.record("int", None)
         ckw = {}
         skw = {}
-        if spec is not None:
+        if spec is not None and spec[0] == "both":
+            # a batch size AND the matching count (accepted when consistent)
+            (ckw if case["where"] == "ctor" else skw).update(
+                batchsize=spec[1], num_batches=math.ceil(N / spec[1]))
+        elif spec is not None:
             (ckw if case["where"] == "ctor" else skw)[spec[0]] = spec[1]
         if case["farmer"]:
             # (a name stored both as constant and as resource: the constant
@@ -173,7 +177,7 @@ def run_case(case):
             if spec is None:
                 require(B == N and set(sizes) == {1}, "default-batching",
                         f"default: B={B}, sizes {sizes}")
-            elif spec[0] == "batchsize":
+            elif spec[0] in ("batchsize", "both"):
                 s = spec[1]
                 require(max(sizes) <= s, "batch-too-large",
                         f"N={N} batchsize={s}: sizes {sizes}")
@@ -196,7 +200,7 @@ def run_case(case):
             require(rep[1] == B and rep[2] == B, "reported-num-batches",
                     f"reports num_batches={rep[1]} num_sown_batches={rep[2]}, "
                     f"on disk {B}")
-            if spec is not None and spec[0] == "batchsize":
+            if spec is not None and spec[0] in ("batchsize", "both"):
                 require(rep[0] == spec[1], "reported-batchsize",
                         f"batchsize {rep[0]} != {spec[1]}")
             else:
@@ -324,7 +328,8 @@ def enumerate_cases(tier, seed):
     nmax = 32 if tier == "quick" else 64
     for N in range(1, nmax + 1):
         specs = [None] + [["batchsize", s] for s in range(1, N + 2)] + \
-                [["num_batches", k] for k in range(1, N + 3)]
+                [["num_batches", k] for k in range(1, N + 3)] + \
+                [["both", s] for s in range(1, N + 1)]
         reals = [("grid", (N,)), ("cases", (N,))]
         facs = [f for f in crops.factorisations(N) if len(f) > 1]
         if facs:
@@ -348,6 +353,10 @@ def enumerate_cases(tier, seed):
                     c = {"N": N, "real": real, "shape": list(shape),
                          "spec": spec, "shuffle": sh, "where": where,
                          "farmer": farmer, "resow": rs}
+                    if spec is not None and spec[0] == "both":
+                        if v % 3:
+                            continue
+                        c["resow"] = None
                     if real == "grid" and (i + j + v) % 5 == 1:
                         c["uni_names"] = True
                     if real == "grid" and (i + j + v) % 4 == 0:
